@@ -678,33 +678,38 @@ async fn send_request(substream: &mut Substream, cids: Vec<(Cid, WantType)>) -> 
 }
 
 async fn send_response(substream: &mut Substream, entries: Vec<ResponseType>) -> Result<(), Error> {
-    // Send presences in a separate message to not deal with it when batching blocks below.
-    if let Some((message, cid_count)) =
-        presences_message(entries.iter().filter_map(|entry| match entry {
+    // Send presences in separate messages to not deal with them when batching blocks below.
+    let mut presences = entries
+        .iter()
+        .filter_map(|entry| match entry {
             ResponseType::Presence { cid, presence } => Some((*cid, *presence)),
             ResponseType::Block { .. } => None,
-        }))
-    {
-        if message.len() <= config::MAX_MESSAGE_SIZE {
-            tracing::trace!(
-                target: LOG_TARGET,
-                cid_count,
-                "sending Bitswap presence message",
-            );
-            match tokio::time::timeout(WRITE_TIMEOUT, substream.send_framed(message)).await {
-                Err(_) => return Err(Error::Timeout),
-                Ok(Err(e)) => return Err(Error::SubstreamError(e)),
-                Ok(Ok(())) => {}
+        })
+        .collect::<VecDeque<_>>();
+
+    while let Some(batch) = extract_next_presence_batch(&mut presences, config::MAX_MESSAGE_SIZE) {
+        if let Some((message, cid_count)) = presences_message(batch) {
+            if message.len() <= config::MAX_MESSAGE_SIZE {
+                tracing::trace!(
+                    target: LOG_TARGET,
+                    cid_count,
+                    "sending Bitswap presence message",
+                );
+                match tokio::time::timeout(WRITE_TIMEOUT, substream.send_framed(message)).await {
+                    Err(_) => return Err(Error::Timeout),
+                    Ok(Err(e)) => return Err(Error::SubstreamError(e)),
+                    Ok(Ok(())) => {}
+                }
+            } else {
+                // This should never happen in practice, but log a warning if the presence message
+                // exceeded [`config::MAX_MESSAGE_SIZE`].
+                tracing::warn!(
+                    target: LOG_TARGET,
+                    size = message.len(),
+                    max_size = config::MAX_MESSAGE_SIZE,
+                    "outgoing Bitswap presence message exceeded max size",
+                );
             }
-        } else {
-            // This should never happen in practice, but log a warning if the presence message
-            // exceeded [`config::MAX_MESSAGE_SIZE`].
-            tracing::warn!(
-                target: LOG_TARGET,
-                size = message.len(),
-                max_size = config::MAX_MESSAGE_SIZE,
-                "outgoing Bitswap presence message exceeded max size",
-            );
         }
     }
 
@@ -878,6 +883,58 @@ fn extract_next_batch_limited<'a>(
     }
 
     Some(blocks.drain(..block_count))
+}
+
+/// Size a presence adds to the encoded message built by [`presences_message`]: one
+/// `blockPresences` entry holding the CID and the presence type.
+fn encoded_presence_size(cid: &Cid, presence: BlockPresenceType) -> usize {
+    let cid_len = cid.encoded_len();
+    // The default enum value (`Have`) is not encoded, `DontHave` takes a tag and a byte.
+    let type_size = match presence {
+        BlockPresenceType::Have => 0,
+        BlockPresenceType::DontHave => 2,
+    };
+    let presence_size =
+        1 + prost::encoding::encoded_len_varint(cid_len as u64) + cid_len + type_size;
+
+    1 + prost::encoding::encoded_len_varint(presence_size as u64) + presence_size
+}
+
+/// Extract a batch of presences from `presences` such that the message encoding the batch is no
+/// more than `max_message_size`. Returns `None` if no more presences are left.
+fn extract_next_presence_batch<'a>(
+    presences: &'a mut VecDeque<(Cid, BlockPresenceType)>,
+    max_message_size: usize,
+) -> Option<Drain<'a, (Cid, BlockPresenceType)>> {
+    // Get rid of presences that can never be sent to not stall the processing.
+    loop {
+        let (cid, presence) = presences.front()?;
+        if EMPTY_MESSAGE_SIZE + encoded_presence_size(cid, *presence) > max_message_size {
+            tracing::warn!(
+                target: LOG_TARGET,
+                cid = cid.to_string(),
+                max_message_size,
+                "outgoing Bitswap presence exceeded max message size",
+            );
+            presences.pop_front();
+        } else {
+            break;
+        }
+    }
+
+    let mut message_size = EMPTY_MESSAGE_SIZE;
+    let mut presence_count = 0;
+
+    for (cid, presence) in presences.iter() {
+        let next_encoded_size = encoded_presence_size(cid, *presence);
+        if message_size + next_encoded_size > max_message_size {
+            break;
+        }
+        message_size += next_encoded_size;
+        presence_count += 1;
+    }
+
+    Some(presences.drain(..presence_count))
 }
 
 #[cfg(test)]
@@ -1195,6 +1252,35 @@ mod tests {
         }
 
         assert_eq!(sent, blocks);
+    }
+
+    #[test]
+    fn presences_are_split_to_fit_message_size() {
+        let max_message_size = 256;
+
+        let presences = (0..50u8)
+            .map(|i| {
+                let presence = if i % 2 == 0 {
+                    BlockPresenceType::Have
+                } else {
+                    BlockPresenceType::DontHave
+                };
+                (cid(&[i]), presence)
+            })
+            .collect::<Vec<_>>();
+        let mut presences_deque = presences.iter().cloned().collect::<VecDeque<_>>();
+
+        let mut sent = Vec::new();
+        while let Some(batch) = extract_next_presence_batch(&mut presences_deque, max_message_size)
+        {
+            let batch = batch.collect::<Vec<_>>();
+            let (message, count) = presences_message(batch.clone()).unwrap();
+            assert_eq!(count, batch.len());
+            assert!(message.len() <= max_message_size);
+            sent.extend(batch);
+        }
+
+        assert_eq!(sent, presences);
     }
 }
 
